@@ -101,5 +101,6 @@ pub fn run(quick: bool) -> Stats {
     }
     run_seqs(&mut st, "tokio pairs", pairs.clone(), false, true, false, &plain, "tokio");
     run_seqs(&mut st, "tokio pairs, pending polls", pairs, false, false, false, &pend_many, "tokio");
+    run_seqs(&mut st, "tokio stale-state triples", stale_state_triples(), false, false, false, &plain, "tokio");
     st
 }
